@@ -1099,9 +1099,19 @@ def plan(tier, seed):
         ] == [(k, r[0]) for k, r in sorted(ex2.results.items())]
         firsts = sched.first_level(ex, bound)
         jobs.append({"spec": spec, "bound": bound, "root": True, "prefixes": [[]], "det": det, "points": len(ex.points), "w": 0})
+        heavy = tier != "quick" and ((n >= 3 and (bound is None or bound >= 3)) or (fine and (bound is None or bound >= 2)) or (n >= 3 and fine))
         for pre in firsts:
             # one job per first-level sub-tree; earlier branch points have larger sub-trees: start them first
-            jobs.append({"spec": spec, "bound": bound, "root": False, "prefixes": [pre], "w": (len(ex.points) - len(pre)) * (3 if n > 2 else 1)})
+            w = (len(ex.points) - len(pre)) * (3 if n > 2 else 1)
+            if not heavy:
+                jobs.append({"spec": spec, "bound": bound, "root": False, "prefixes": [pre], "w": w})
+                continue
+            # deep specifications: one job per SECOND-level sub-tree (the first-level execution itself is a job of its own),
+            # otherwise a handful of early sub-trees keep single workers busy long after the others have finished
+            exp, _ = run_one(spec, pre)
+            jobs.append({"spec": spec, "bound": bound, "root": False, "single": True, "prefixes": [pre], "w": 0})
+            for pre2 in sched.first_level(exp, bound, prefix_len=len(pre)):
+                jobs.append({"spec": spec, "bound": bound, "root": False, "prefixes": [pre2], "w": (len(exp.points) - len(pre2)) * (3 if n > 2 else 1)})
     jobs.sort(key=lambda j: -j["w"])
     return jobs
 
@@ -1141,6 +1151,10 @@ def run_job(job):
 
     t0 = _time.process_time()
     for pre in job["prefixes"]:
+        if job.get("single"):
+            one(pre)
+            n_total += 1
+            continue
         n, capped = sched.explore(lambda p: one(p), lambda x: None, bound, prefix=pre, max_execs=200000)
         n_total += n
         if capped:
